@@ -40,20 +40,66 @@ def pin_polyclip(check):
     except Exception as e:  # unreadable go.mod etc.: the tie cannot be established
         check.broken.append("cannot establish the polyclip pin: %r" % e)
 
+TIE_MODULE = T + "Ties"
+TIE_THEOREMS = ["C01_tie_toPolyClip", "C01_tie_polyClipToPolygon", "C01_tie_clipperOp", "C01_tie_Polygons", "C01_tie_op", "C01_tie_multi_op",
+                "C01_tie_Polygon_methods", "C01_tie_MultiPolygon_methods", "C01_tie_Bounds_delegates", "C01_tie_Bounds_Intersection", "C01_src_api"]
+
+
+def regen_glue(check):
+    """T1: regenerate lean/GeomV/C01/Gen.lean from polygon.go / multipolygon.go / bounds.go of the tree under test
+    (written only when it changed).  If a function left the translatable subset, or the regenerated definitions no
+    longer denote the model's functions (Ties.lean does not build), the tie is reported broken and the Ties module is
+    left out so that the other obligations are still audited."""
+    import vcheck
+    cfg = check.cfg
+
+    def drop(why):
+        cfg["lean_modules"] = [m for m in cfg["lean_modules"] if m != TIE_MODULE]
+        check.broken.append(why)
+    ok, gobin, out = vcheck.go_build("c01", check.rundir)
+    if not ok:
+        return  # reported by the harness build of the main flow
+    p = subprocess.run([gobin, "extract", "--repo", vcheck.REPO], stdout=subprocess.PIPE, stderr=subprocess.PIPE, text=True)
+    if p.returncode not in (0, 3) or not p.stdout.startswith("import"):
+        drop("T1 tie: extractor failed: " + p.stderr.strip()[-300:])
+        return
+    gen = os.path.join(vcheck.LEAN, "GeomV", "C01", "Gen.lean")
+    old = open(gen).read() if os.path.exists(gen) else ""
+    if old != p.stdout:
+        with open(gen + ".tmp%d" % os.getpid(), "w") as f:
+            f.write(p.stdout)
+        os.replace(gen + ".tmp%d" % os.getpid(), gen)
+    if p.returncode == 3:
+        drop("T1 tie: " + p.stderr.strip()[-600:])
+        return
+    with vcheck.Lock("lake"):
+        b = subprocess.run(["lake", "build", TIE_MODULE], cwd=vcheck.LEAN, stdout=subprocess.PIPE, stderr=subprocess.STDOUT, text=True)
+    if b.returncode != 0:
+        errs = re.findall(r"error: .*", b.stdout)[:3]
+        drop("T1 tie broken: the boolean-operation glue regenerated from polygon.go / multipolygon.go / bounds.go no longer denotes the model "
+             "(GeomV.C01.Ties does not build): " + " | ".join(errs))
+
+
+def pregen(check):
+    pin_polyclip(check)
+    regen_glue(check)
+
+
 CFG = {
     "id": "C01",
-    "lean_modules": ["GeomV.C01.Proofs", "GeomV.C01.ProofsCert"],
+    "lean_modules": ["GeomV.C01.Proofs", "GeomV.C01.ProofsCert", TIE_MODULE],
     "exe": "geomv_c01",
     "go_cmd": "c01",
     "stages": ["go:gen", "go:impl", "lean:judge"],
     "theorems": [T + n for n in ["C01_pointset", "C01_closed", "C01_empty_only_if_null", "C01_xor_defect_before_fix", "C01_pointset_natural", "C01_inclusion_exclusion_pointwise", "member_eq_memberNat",
                                  "construct_pointset", "boundsIntersection_pointset", "not_both_inside", "insideRing_rect", "inBox_of_inside", "inside_const", "edge_lemma", "member_const", "sample_cell_const", "slab_cell_free", "slabCell_sound",
-                                 "C01_certificate_sound", "C01_certificate_exact", "C01_certificate_coreSpec_case", "C01_inclusion_exclusion_cells", "slab_sound", "nearSeg_convex", "chain_pairwise", "split_at"]],
+                                 "C01_certificate_sound", "C01_certificate_exact", "C01_certificate_coreSpec_case", "C01_inclusion_exclusion_cells", "slab_sound", "nearSeg_convex", "chain_pairwise", "split_at"] + TIE_THEOREMS],
     "level": "proof",
     "trusted_base": [
         "Lean 4.33.0 kernel; axioms of every theorem printed by #print axioms must be within {propext, Classical.choice, Quot.sound}",
         "the sweep-line core of github.com/ctessum/polyclip-go v1.1.0 (everything in clipper.compute after its two trivial-case tests) is a PARAMETER of the model with the explicit contract hypothesis CoreSpec; it is not proved for all inputs, but on every generated case the implementation's answer is passed through the certificate checker certCheck (exact Rat), which is PROVED sound (C01_certificate_sound: accepted => truth table at every point with clear margin 1e-6*extent from the input edges; margin 0 => every off-boundary point)",
-        "model lean/GeomV/C01/Model.lean (geom glue, *Bounds shortcuts, polyclip trivial-case tables) is tied to /repo/{polygon,multipolygon,bounds}.go and polyclip-go@v1.1.0/clipper.go by the correspondence run on every check (exact comparison of every result the model determines)",
+        "T1: harness/cmd/c01/extract.go (go/ast; translation table in its header; approach of harness/cmd/c14/extract.go extended by if/else chains, `v, ok := p.(*Bounds)`, &Bounds{..}, math.Max/Min, nil / interface-typed returns) regenerates lean/GeomV/C01/Gen.lean from polygon.go / multipolygon.go / bounds.go of the tree under test on every run, in a faulting monad (index, slice, make are partial: GenLib.lean); Ties.lean proves that the twelve public methods Polygon/MultiPolygon/(*Bounds).Intersection/Union/XOr/Difference, both op methods, clipperOp, toPolyClip, polyClipToPolygon and the three Polygons() as regenerated return WITHOUT FAULT exactly the model's api / polyOp / boundsIntersection (C01_src_api; for a *Bounds receiver under the explicit hypothesis that it is not the empty box). Not regenerated (hand-written in GenLib.lean, tied by the correspondence run only): Bounds() of a Polygonal, (*Bounds).Within and (*Bounds).Overlaps on *Bounds arguments, with the empty box of NewBounds() as a separate value (its infinite corners have no Rat value); math.Max/Min are max/min on Rat (finite coordinates). Not modelled by the translation: slice capacity (taken = length) and aliasing (observed by the harness: operands compared with a snapshot after every call, histories on one object, concurrent callers)",
+        "the head of polyclip's clipper.compute (construct: the two trivial-case tests), BoundingBox and Overlaps are transcribed by hand in lean/GeomV/C01/Model.lean and pinned by version + go.sum hash + sha256 of clipper.go/geom.go/connector.go (pin_polyclip); tied by the correspondence run on every check (exact comparison of every result the model determines)",
         "IEEE-754 rounding: operands are dyadic-grid (exact); the clipper's intersection points are floats: sliver cells between an input edge and its rounded copy are accepted only when all four corners lie within 1e-6*extent of ONE input edge (convexity of the margin zone proved: nearSeg_convex)",
         "harness/cmd/c01 + lean driver + lib/vcheck.py transport inputs faithfully",
     ],
@@ -62,7 +108,7 @@ CFG = {
             "(overlapping, nested, disjoint-with-overlapping-boxes, box-disjoint, box-separated along exactly one axis, identical boxes) x 9 receiver/argument type pairs x 4 operations + area identities; multi-polygons with an empty member at a random position; a result ring of >128 (thorough >1024) vertices; concurrent lines (cc: the case recomputed by 8 goroutines while 8 others run the operations on unrelated operands; any answer that differs from the sequential one is judged); "
             "40% of the cases at coordinate scales 2^-20/2^-24/2^-30/2^+20 (dyadic: exact), multi-call histories on one line with operands overwritten in place, operands over one flat backing array and compared with a snapshot after each call, size-threshold cases (vertex/ring/member counts beyond 64/128/1024; lines of 1024..3000 vertices); distinct = distinct input line; non-trivial = verdict class not '-outside-quantifier' (invalid or non-general-position corpus cases, compared with the model only)",
     "trivial_class": r"outside-quantifier$",
-    "pregen": pin_polyclip,
+    "pregen": pregen,
     "timeout": {"quick": 600, "thorough": 3000},
     "explanation": "partial: glue, both trivial-case tables and all *Bounds shortcuts are proved for all inputs conditional on CoreSpec; the sweep-line core is not proved for all inputs, but every generated case is certified by a proved-sound per-case checker (a passing case is a proof of the contract for that case)",
 }
